@@ -187,17 +187,59 @@ def server_req(ver, limit, use_json, style=0):
     return t.encode(), obs
 
 
+BAD_HOSTS = ["%zz", "%z", "a%zz", "%zz%"]
+
+
+def grpc_client_req(name, shape, use_json, rng):
+    """one ClientCompatRequest for the gRPC reference client.  That client dials for EVERY request and waits
+    up to 5 s for the connection, so every shape names a host grpc.NewClient refuses at once (an invalid URL
+    escape: no resolver, no dial, no timer) - the response is an error result carrying the test name."""
+    n = name.encode()
+    host = BAD_HOSTS[shape % len(BAD_HOSTS)]
+    if not use_json:
+        m = (pb_str(1, n) if n else b"") + (pb_int(3, 2) if shape == 2 else b"") + pb_str(6, host.encode())
+        if shape == 1:
+            m += pb_int(7, 1) + pb_str(11, SERVICE.encode()) + pb_str(12, b"Unary") + pb_int(13, 1)
+        return m, n
+    if shape == 1:
+        t = ('{"testName":"%s","httpVersion":"HTTP_VERSION_2","protocol":"PROTOCOL_GRPC","codec":"CODEC_PROTO",'
+             '"host":"%s","port":1,"service":"%s","method":"Unary","streamType":"STREAM_TYPE_UNARY"}' % (name, host, SERVICE))
+    elif shape == 2:
+        t = '{"testName": "%s", "protocol": 2, "host": "%s"}' % (name, host)
+    elif shape == 3:
+        t = '{\n  "testName": "%s",\n  "host": "%s",\n  "codec": "CODEC_PROTO"\n}' % (name, host)
+    else:
+        t = ('{"testName":"%s","host":"%s"}' % (name, host)) if name else '{ "host":"%s"}' % host
+    return t.encode(), n
+
+
+def grpc_server_req(kind, limit, use_json, style=0):
+    """one ServerCompatRequest for the gRPC reference server and what a probe of the server it starts can see:
+    [kind, limit] with kind 2 = protocol gRPC over HTTP/2 (bare grpc-go server), 1 = gRPC-Web (net/http + h2c)"""
+    obs = [kind, limit]
+    proto, ver = (2, 2) if kind == 2 else (3, 1 + style % 2)
+    if not use_json:
+        return pb_int(1, proto) + pb_int(2, ver) + pb_int(6, limit), obs
+    if style == 0:
+        t = '{"protocol":%d,"httpVersion":%d,"messageReceiveLimit":%d}' % (proto, ver, limit)
+    else:
+        t = ('{\n  "protocol": "%s",\n  "httpVersion": "HTTP_VERSION_%d",\n  "messageReceiveLimit": %d\n}'
+             % ("PROTOCOL_GRPC" if kind == 2 else "PROTOCOL_GRPC_WEB", ver, limit))
+    return t.encode(), obs
+
+
 class C09(Prop):
     id = "C09"
     props = "C09_Props"
-    coq_files = ("Base", "C09_Consts", "C09_Model", "C09_Spec", "C09_Proofs", "C09_ProofsW", "C09_ProofsJ", "C09_ProofsS", "C09_ProofsC", "C09_ProofsL", "C09_Props")
+    coq_files = ("Base", "C09_Consts", "C09_Model", "C09_Spec", "C09_Proofs", "C09_ProofsW", "C09_ProofsJ", "C09_ProofsS", "C09_ProofsC", "C09_ProofsL", "C09_ProofsG", "C09_Props")
     models = ("C09_Model",)
     consts = ("int", "cc")
     packages = {"int": "internal", "cc": "internal/app/connectconformance",
-                "rc": "internal/app/referenceclient", "rs": "internal/app/referenceserver"}
+                "rc": "internal/app/referenceclient", "rs": "internal/app/referenceserver",
+                "gc": "internal/app/grpcclient", "gs": "internal/app/grpcserver"}
     kinds = {"c09.raw": "int", "c09.read": "int", "c09.stalls": "int", "c09.stall": "int", "c09.dec": "int", "c09.write": "int",
              "c09.json": "int", "c09.jsonrt": "int", "c09.wsink": "int", "c09.pipe": "int", "c09.jsonwrite": "int",
-             "c09.client": "rc", "c09.server": "rs"}
+             "c09.client": "rc", "c09.server": "rs", "c09.grpcclient": "gc", "c09.grpcserver": "gs", "c09.limits": "cc"}
     rule = ("scripted io.Reader (data, read schedule, error-with-last-data flag, tail = EOF | other error | block for ever) driven through "
             "readDelimitedMessageRaw (c09.raw), ReadDelimitedMessage (c09.read), codec.NewDecoder(..).DecodeNext binary (c09.dec) and JSON "
             "(c09.json, c09.jsonrt) until the first error: ALL compositions into reads of every small stream (<= 12 bytes quick, <= 14 thorough) "
@@ -516,8 +558,42 @@ class C09(Prop):
         #    RunInReferenceMode with a scripted stdin, both wire variants
         for c in self.loop_cases(rng, quick):
             yield c
+        # 9. the same for the gRPC reference peers (grpcclient / grpcserver Run, RunWithTrace)
+        for c in self.loop_cases(rng, quick, grpc=True):
+            yield c
+        # 10. the runner's wiring of the two size limits to its two readers
+        for c in self.limit_cases(rng, quick):
+            yield c
 
-    def loop_cases(self, rng, quick):
+    def limit_cases(self, rng, quick):
+        """["c09.limits", side, size, avail, sched, tail]: side 0 = the real runTestCasesForServer reading the
+        server's response (1 MB), 1 = the real runClient/consumeOutput reading a client response (16 MB); the
+        peer's stdout announces `size`, delivers `avail` <= size bytes of a valid message of that size, then ends.
+        Every run: the windows limit-1, limit, limit+1 around BOTH limits on BOTH sides, 2 MB, 2^31, 2^32-1,
+        with the body absent / 9 bytes / complete (virtual: nothing is copied unless the code reads it)."""
+        mb = 1 << 20
+        windows = [mb - 1, mb, mb + 1, 2 * mb, 16 * mb - 1, 16 * mb, 16 * mb + 1, 1 << 31, (1 << 32) - 1]
+        small = [0, 3, 4, 5, 131, 132, 133, 134, 300, 70000]
+        scheds = [[], [1, 1, 1, 1], [2, 2], [3, 1], [1, 3], [4, 1], [0, 4, 0], [4, 4, 1], [9]]
+        for side in (0, 1):
+            lim = mb if side == 0 else 16 * mb
+            for size in windows + small:
+                for avail in sorted({0, min(size, 9), size}):
+                    if avail > 16 * mb + 1:
+                        continue
+                    heavy = avail == size and mb - 1 <= size <= lim     # the body really is read: once per size
+                    for tail in ((EOF,) if heavy else (EOF, FAIL)):
+                        yield ["c09.limits", side, size, avail, rng.choice(scheds), tail]
+        for _ in range(60 if quick else 600):
+            side = rng.randrange(2)
+            size = max(0, rng.choice([mb, 16 * mb, 16 * mb, mb, 300, 5000]) + rng.randint(-3, 3))
+            if size in (1, 2):
+                size = 3
+            avail = rng.choice([0, 0, min(size, rng.randint(1, 40)), size if size <= 2 * mb else 0])
+            sch = [rng.randint(0, 5) for _ in range(rng.randint(0, 6))]
+            yield ["c09.limits", side, size, avail, sch, rng.choice([EOF, EOF, FAIL])]
+
+    def loop_cases(self, rng, quick, grpc=False):
         """["c09.client", json, p, ref, data, sched, eager, tail, table] and
         ["c09.server", json, ref, data, sched, eager, tail, table]"""
         def table_of(pairs):
@@ -528,14 +604,19 @@ class C09(Prop):
                     out.append([m, n])
             return out
 
+        ckind, skind = ("c09.grpcclient", "c09.grpcserver") if grpc else ("c09.client", "c09.server")
+        client_req_ = grpc_client_req if grpc else client_req
+        server_req_ = grpc_server_req if grpc else server_req
+        quick = quick or grpc          # the gRPC peers share the loops' model: the quick shapes in both tiers
+
         def client(use_json, pairs, data, sched, p=1, eager=None, tail=EOF):
-            return ["c09.client", use_json, p, rng.randrange(2), data, sched,
+            return [ckind, use_json, p, rng.randrange(2), data, sched,
                     rng.random() < 0.5 if eager is None else eager, tail, table_of(pairs)]
 
         for use_json in (0, 1):
             # a. THREE requests: in one read; split at every byte; byte by byte; at the message boundaries;
             #    two then one; one then two; every three-part split on a coarse grid; p = 1 (sequence) and 4 (multiset)
-            pairs = [client_req(n, 0, use_json, rng) for n in ("s/a", "s/b", "s/c")]
+            pairs = [client_req_(n, 0, use_json, rng) for n in ("s/a", "s/b", "s/c")]
             msgs = [m for m, _ in pairs]
             data = peer_stream(msgs, use_json)
             b = peer_bounds(msgs, use_json)
@@ -553,6 +634,18 @@ class C09(Prop):
             for i in range(1, len(data), step):
                 for j in range(i + 1, len(data), step):
                     yield client(use_json, pairs, data, [i, j - i], 1)
+            # a'. a LONG stream (about 30 requests, > 1 KiB: several refills of json.Decoder's 512-byte reads): one
+            #     read for everything, 600-byte reads, one request per read, byte by byte, random partitions
+            lpairs = [client_req_("l/%d" % i, [0, 2, 3, 0][i % 4], use_json, rng) for i in range(30)]
+            lmsgs = [m for m, _ in lpairs]
+            ldata = peer_stream(lmsgs, use_json)
+            lb = peer_bounds(lmsgs, use_json)
+            lper = [lb[0]] + [lb[i] - lb[i - 1] for i in range(1, len(lb))]
+            for sch in ([], [600] * 4, [512, 512], lper, [1] * len(ldata), [lb[9], lb[19] - lb[9]], rand_sched(rng, len(ldata), lb)):
+                yield client(use_json, lpairs, ldata, sch, 1)
+            yield client(use_json, lpairs, ldata, [], 4)
+            cut = rng.randrange(1, len(ldata))
+            yield client(use_json, lpairs, ldata[:cut], rng.choice([[], [600] * 4]), 1, None, EOF)
             # b. stdin ends inside / in front of / behind a request: every cut of the same stream
             for cut in range(len(data)):
                 for sch in ([], [1] * cut, rand_sched(rng, cut, b)):
@@ -565,7 +658,7 @@ class C09(Prop):
                 if pairs and n == "m/1":
                     pairs.append(pairs[0])
                 else:
-                    pairs.append(client_req(n, sh, use_json, rng))
+                    pairs.append(client_req_(n, sh, use_json, rng))
             msgs = [m for m, _ in pairs]
             data = peer_stream(msgs, use_json)
             b = peer_bounds(msgs, use_json)
@@ -579,7 +672,7 @@ class C09(Prop):
             # d. random streams, random partitions (zero-length reads included), 30 % cut somewhere
             for _ in range(150 if quick else 6000):
                 n = rng.choice([0, 1, 2, 3, 3, 4, 6])
-                pairs = [client_req("r/%d" % rng.randrange(5), rng.choice([0, 0, 2, 3, 1]), use_json, rng) for _ in range(n)]
+                pairs = [client_req_("r/%d" % rng.randrange(5), rng.choice([0, 0, 2, 3, 1]), use_json, rng) for _ in range(n)]
                 # the same name always with the same message (the table projects a message to its name)
                 byname = {}
                 pairs = [byname.setdefault(nm, (m, nm)) for m, nm in pairs]
@@ -599,26 +692,26 @@ class C09(Prop):
             def server(m, obs, data, sched, eager=None, tail=None):
                 if tail is None:
                     tail = rng.choice([BLOCK, BLOCK, EOF])
-                return ["c09.server", use_json, rng.randrange(2), data, sched,
+                return [skind, use_json, rng.randrange(2), data, sched,
                         rng.random() < 0.5 if eager is None else eager, tail, [[m, obs]]]
-            variants = [(1, 0), (2, 64), (2, 0), (1, 64)]
-            m, obs = server_req(2, 64, use_json)
+            variants = [(1, 1000), (2, 64), (2, 1000), (1, 64)] if grpc else [(1, 0), (2, 64), (2, 0), (1, 64)]
+            m, obs = server_req_(2, 64, use_json)
             data = peer_stream([m], use_json)
             for i, k in enumerate(range(1, len(data))):
                 ver, limit = (2, 64) if i % 2 else (1, 64)       # same length: every byte position is a split point
-                m, obs = server_req(ver, limit, use_json)
+                m, obs = server_req_(ver, limit, use_json)
                 yield server(m, obs, peer_stream([m], use_json), [k])
             for i, (ver, limit) in enumerate(variants):
-                m, obs = server_req(ver, limit, use_json, i % 2)
+                m, obs = server_req_(ver, limit, use_json, i % 2)
                 data = peer_stream([m], use_json)
                 for sch in ([], [1] * len(data), [len(data) - 1], rand_sched(rng, len(data))):
                     yield server(m, obs, data, sch, bool(i % 2))
-                m2, _ = server_req(1, 5, use_json)
+                m2, _ = server_req_(1, 5, use_json)
                 yield server(m, obs, data + peer_stream([m2], use_json), rng.choice([[], [len(data) + 2], rand_sched(rng, len(data) + 4)]))
                 yield server(m, obs, data + (b"]}" if use_json else b"\xff\xff"), [])
                 for _ in range(3 if quick else 30):
                     yield server(m, obs, data, rand_sched(rng, len(data)))
-            m, obs = server_req(2, 64, use_json, 1)
+            m, obs = server_req_(2, 64, use_json, 1)
             data = peer_stream([m], use_json)
             for cut in range(len(data) - (1 if use_json else 0)):
                 yield server(m, obs, data[:cut], rng.choice([[], [1] * cut, rand_sched(rng, cut)]), None, rng.choice([EOF, EOF, EOF, FAIL, BLOCK]))
